@@ -93,8 +93,8 @@ func (fs *ReaderFS) read(r io.Reader) {
 	if err != nil {
 		fs.unarchiveErr.Store(err)
 	}
+	fs.readerDone() // before releasing the waiters, so that they can tell "unpacking is over" from "the caller cancelled"
 	fs.callerCancel()
-	fs.readerDone()
 
 	if closer, ok := r.(io.Closer); ok {
 		_ = closer.Close()
@@ -293,6 +293,15 @@ func (fs *ReaderFS) Open(name string) (hackpadfs.File, error) {
 		return nil, &hackpadfs.PathError{Op: "open", Path: name, Err: hackpadfs.ErrInvalid}
 	}
 	fs.ps.Wait(name)
+	if !fs.ps.Emitted(name) {
+		// Not announced as completely written: only the end of unpacking can tell what this name is.
+		select {
+		case <-fs.readerCtx.Done():
+		default:
+			// Wait returned because the caller's context ended while unpacking is still going on: the entry may be half written.
+			return nil, &hackpadfs.PathError{Op: "open", Path: name, Err: fs.callerCtx.Err()}
+		}
+	}
 	if unarchiveErr := fs.UnarchiveErr(); unarchiveErr != nil {
 		return nil, &hackpadfs.PathError{Op: "open", Path: name, Err: unarchiveErr}
 	}
